@@ -229,6 +229,14 @@ func vfRunTransfer(t *testing.T, spec *vfSpec, res *vfRes, o vfXferOpts) *vfXfer
 				}
 				buf := make([]byte, 1<<20)
 				res.witness("%s", string(buf[:runtime.Stack(buf, true)]))
+				// a sender that sits on abandoned chunks (advanced peer ack point ahead of the cumulative ack point)
+				// while nothing moves has not got its FORWARD-TSN through and is not repeating it: the abandoned
+				// message blocks what follows it
+				for side, sn := range []vfSnap{sa, sb} {
+					if sna32GT(sn.AdvPeer, sn.CumAck) {
+						res.violate("C07", "forward/not-repeated", "side %d: %v after the link healed the transfer stands still with the advanced peer ack point (%d) ahead of the cumulative ack point (%d): the FORWARD-TSN for abandoned data was lost and is not sent again", side, sim.net.now()-healT, sn.AdvPeer, sn.CumAck)
+					}
+				}
 				res.violate("C02", "stall/after-heal", "%v after the link healed (bound %v): writers returned=%v, association buffered=%d stream buffered=%d;%s; A: inflight=%d pending=%d cwnd=%d rwnd=%d state=%d; B: inflight=%d pending=%d cwnd=%d rwnd=%d state=%d",
 					sim.net.now()-healT, bound, writersOK, a, b, detail, sa.InflightN, sa.PendingN, sa.CWND, sa.RWND, sa.State, sb.InflightN, sb.PendingN, sb.CWND, sb.RWND, sb.State)
 			}
